@@ -30,3 +30,167 @@ Proof. exact host_kept. Qed.
     (500 + 1000 + 500 ms by default) — the per-item term of the gathering time bound; exact retransmission instants: C19 *)
 Theorem C20_unanswered_transaction_waits : forall T, 1 <= T -> wait T 3 1 + wait T 3 2 + wait T 3 3 = 4 * T.
 Proof. intros T HT. destruct (wait_examples T HT) as (-> & -> & -> & _). lia. Qed.
+
+(** ------------------------------------------------------------------------------------------------------------------
+    Candidate gathering ALWAYS completes, exactly once, in bounded time (Agent.DiscoveryModel: the discovery list, the tick
+    priv_discovery_tick_unlocked, the answer handlers of agent/conncheck.c, discovery_free / agent_gathering_done; tied to the source
+    text and, by differential execution compared inside Coq, to the running code by props/c20_discovery.py).
+    A run = [EStart t0] followed by ANY list of events: timer firings at adversary-chosen instants, answers of any kind (success, every
+    error class, 401/438 with any realm, alternate server, validated-but-invalid) for any item and any transaction id (current, stale,
+    never used), duplicates, request creations / sends that fail; silence = no event.  NO hypothesis restricts the answers.
+    Assumptions about time, all explicit below: every instant is a well-formed timeval ([wf_now]: 0 <= usec < 10^6), the clock is
+    monotone and the timer fires at most [G] microseconds after its previous firing ([driven]); seconds are unbounded integers (no
+    32-bit wrap of time_t; the unsigned arithmetic of the STUN timer itself is modelled with its wrap); all clock reads of one tick
+    return the same instant; timer parameters within [params_ok] (1 <= RTO <= 10000 ms, limit <= 16). *)
+From Nice Require Import Agent.DiscoveryModel Agent.DiscoveryProofs Gen.Discovery.
+
+(** (1) TERMINATION WITH A BOUND, whatever the servers do.  n = number of items, A = c_maxauth (NICE_DISCOVERY_MAX_AUTH_RETRIES),
+    MR = c_maxredir (NICE_DISCOVERY_MAX_REDIRECTS), TX = sum over k = 1..max(N,1) of (wait_k + 1 ms + G) = one transaction with the tick
+    period G added to each wait, round = G + TX.  Once the last timer firing is more than
+        T(n) = n * ((A + 1) * round + MR * n * TX)      microseconds
+    after the start, the list is freed, the streams are no longer gathering, the timer is gone and completion was announced once.
+    (Each item runs at most A + 1 rounds of its own and follows at most MR redirections; a redirection followed by a TURN allocation
+    also re-queues its siblings without counting against them, hence n * TX per redirection and n * MR redirections in all.) *)
+Theorem C20_gathering_terminates : forall c G l0 t0 fails es,
+  params_ok (c_T c) (c_N c) -> 0 <= c_maxauth c -> 0 <= c_maxredir c -> 0 <= G -> wf_now t0 -> Forall fresh l0 -> driven G (us t0) es ->
+  bound c G (Z.of_nat (length l0)) < last_tick (us t0) es - us t0 ->
+  completed (fst (run c (init l0) (EStart t0 fails :: es))) /\ n_gd (snd (run c (init l0) (EStart t0 fails :: es))) = 1.
+Proof. exact terminates. Qed.
+Print Assumptions C20_gathering_terminates.
+
+(** (1) read the other way: while the timer source exists or a stream is still gathering, the last timer firing is no later than
+    T(n) after the start *)
+Theorem C20_gathering_open_only_within_bound : forall c G l0 t0 fails es,
+  params_ok (c_T c) (c_N c) -> 0 <= c_maxauth c -> 0 <= c_maxredir c -> 0 <= G -> wf_now t0 -> Forall fresh l0 -> driven G (us t0) es ->
+  ds_timer (fst (run c (init l0) (EStart t0 fails :: es))) = true \/ ds_gathering (fst (run c (init l0) (EStart t0 fails :: es))) = true ->
+  last_tick (us t0) es - us t0 <= bound c G (Z.of_nat (length l0)).
+Proof. exact open_only_within_bound. Qed.
+Print Assumptions C20_gathering_open_only_within_bound.
+
+(** ... in timer firings: when the timer also never fires earlier than Ta after its previous firing, more than T(n)/Ta firings
+    cannot happen without completion (K = T(n) / Ta + 1) *)
+Theorem C20_gathering_terminates_in_ticks : forall c Ta G l0 t0 fails es,
+  params_ok (c_T c) (c_N c) -> 0 <= c_maxauth c -> 0 <= c_maxredir c -> 0 <= Ta -> 0 <= G -> wf_now t0 -> Forall fresh l0 -> driven2 Ta G (us t0) es ->
+  bound c G (Z.of_nat (length l0)) < Ta * ticks es ->
+  completed (fst (run c (init l0) (EStart t0 fails :: es))) /\ n_gd (snd (run c (init l0) (EStart t0 fails :: es))) = 1.
+Proof. exact terminates_ticks. Qed.
+Print Assumptions C20_gathering_terminates_in_ticks.
+
+(** the bound spelled out for a limit of 3 transmissions (the default): TX = 4 RTO + 3 x (1 ms + G) *)
+Theorem C20_time_bound_three_transmissions : forall c G n, c_N c = 3 -> 1 <= c_T c ->
+  bound c G n = n * ((c_maxauth c + 1) * (G + 4000 * c_T c + 3 * (1000 + G)) + c_maxredir c * (n * (4000 * c_T c + 3 * (1000 + G)))).
+Proof. exact bound_three. Qed.
+Print Assumptions C20_time_bound_three_transmissions.
+
+(** the explicit decreasing measure behind (1): while the timer is armed, potential + elapsed time never exceeds the potential at the
+    start ([Phi] = sum over the items of [phi]: the item's remaining worst-case time plus n x TX for every redirection it may still
+    follow); no answer of any kind raises it, every tick that returns TRUE lowers it by the time elapsed *)
+Theorem C20_measure_decreases : forall c G, params_ok (c_T c) (c_N c) -> 0 <= G -> forall es s clk,
+  Forall (inv2 c clk) (ds_items s) -> ds_timer s = true -> driven G clk es ->
+  let nn := Z.of_nat (length (ds_items s)) in
+  let s' := fst (run c s es) in
+  completed s' \/
+  (ds_timer s' = true /\ Forall (inv2 c (last_tick clk es)) (ds_items s') /\
+   Phi c G nn (last_tick clk es) (ds_items s') + (last_tick clk es - clk) <= Phi c G nn clk (ds_items s)).
+Proof. exact run_phi. Qed.
+Print Assumptions C20_measure_decreases.
+
+(** why NICE_DISCOVERY_MAX_REDIRECTS is needed (regression of the defect fixed by /repo 1878027, where the limit did not exist): with
+    the limit set to k - for EVERY k - a STUN server that answers every Binding request with 300 + ALTERNATE-SERVER (as does every server
+    it names) keeps the discovery open for k timer periods; without a limit no function of n and of the timer parameters bounds the
+    gathering time *)
+Theorem C20_gathering_time_grows_with_redirect_limit : forall k : nat,
+  let c := cfg_limit (Z.of_nat k) in
+  let es := adversary c [fresh_item Srflx 1 1] (answer_cur 0 (KAlternate 2)) k in
+  let r := run c (init [fresh_item Srflx 1 1]) (EStart (at_ms 0) [] :: es) in
+  driven 20000 (us (at_ms 0)) es /\ last_tick (us (at_ms 0)) es - us (at_ms 0) = 20000 * Z.of_nat k /\
+  ds_gathering (fst r) = true /\ ds_timer (fst r) = true /\ n_gd (snd r) = 0.
+Proof. exact gathering_time_grows_with_redirect_limit. Qed.
+Print Assumptions C20_gathering_time_grows_with_redirect_limit.
+
+(** (2) EXACTLY ONCE.  Whatever happens (no assumption on time or on the events), the number of announcements of a run is 1 if the
+    streams are no longer gathering at its end and 0 otherwise - never two; with (1): exactly one. *)
+Theorem C20_completion_announced_at_most_once : forall c l0 es, Forall fresh l0 ->
+  n_gd (snd (run c (init l0) es)) = 1 - b2z (ds_gathering (fst (run c (init l0) es))) /\ 0 <= n_gd (snd (run c (init l0) es)) <= 1.
+Proof. exact announced_at_most_once. Qed.
+Print Assumptions C20_completion_announced_at_most_once.
+
+(** ... and never before every item is done: an announcement is made by a tick whose loop left every item of the list done (or by
+    the start when there is nothing to discover) *)
+Theorem C20_completion_only_when_all_done : forall c s e, Forall sok (ds_items s) -> In EvGatheringDone (snd (step c s e)) ->
+  ds_gathering s = true /\ ds_gathering (fst (step c s e)) = false /\
+  ((exists now fails, e = EStart now fails /\ ds_unsched s <= 0 /\ ds_timer s = false) \/
+   (exists now fails l' st o', (e = EStart now fails \/ e = ETick now fails) /\
+      tick_loop c now fails 0 (ds_nid s) (ds_items s) = (l', 0, st, o') /\ all_done l' /\ ds_items (fst (step c s e)) = [])).
+Proof. exact completion_only_when_all_done. Qed.
+Print Assumptions C20_completion_only_when_all_done.
+
+(** [sok], the structural invariant the step theorems assume, holds in every state a run can reach *)
+Theorem C20_reachable_states_are_sound : forall c l0 es, Forall fresh l0 -> Forall sok (ds_items (fst (run c (init l0) es))).
+Proof. exact reachable_sok. Qed.
+Print Assumptions C20_reachable_states_are_sound.
+
+(** (3) a candidate is produced only by a SUCCESS answer that carries the item's CURRENT transaction id, still remembered by the item's
+    StunAgent (so not a duplicate, not an answer to an earlier transaction), while the item is not done ... *)
+Theorem C20_candidate_only_from_matching_success : forall c s e i, Forall sok (ds_items s) -> In (EvCand i) (snd (step c s e)) ->
+  exists t it, e = EAnswer i t KSuccess /\ nth_error (ds_items s) i = Some it /\
+    d_buf it = true /\ d_live it = true /\ d_tid it = t /\ d_done it = false /\ d_pending it = true /\
+    nth_error (ds_items (fst (step c s e))) i = Some (it_finish it) /\ snd (step c s e) = [EvCand i].
+Proof. exact candidate_only_from_matching_success. Qed.
+Print Assumptions C20_candidate_only_from_matching_success.
+
+(** ... and at most one per item over a whole run, whatever the events *)
+Theorem C20_at_most_one_candidate_per_item : forall c l0 es i, Forall fresh l0 -> 0 <= n_cand i (snd (run c (init l0) es)) <= 1.
+Proof. exact one_candidate_per_item. Qed.
+Print Assumptions C20_at_most_one_candidate_per_item.
+
+(** (4) a done item is never re-activated: it stays exactly as it is until the list is freed; no request is sent and no candidate
+    produced for its position for the rest of the run *)
+Theorem C20_done_item_is_final : forall c j es s x, Forall sok (ds_items s) -> (nth_error (ds_items s) j = Some x /\ d_done x = true \/ ds_items s = []) ->
+  (nth_error (ds_items (fst (run c s es))) j = Some x \/ ds_items (fst (run c s es)) = []) /\
+  n_send j (snd (run c s es)) = 0 /\ n_cand j (snd (run c s es)) = 0.
+Proof. exact done_is_final. Qed.
+Print Assumptions C20_done_item_is_final.
+
+(** the hypotheses are met by concrete, non-trivial runs (constants as generated from the source: Gen/Discovery.v) *)
+Example C20_discovery_defaults_are_the_sources :
+  cfg_default = {| c_T := D_TIMER_DEFAULT_TIMEOUT; c_N := D_TIMER_DEFAULT_MAX_RETRANSMISSIONS; c_maxauth := D_MAX_AUTH_RETRIES; c_maxredir := D_MAX_REDIRECTS |} /\
+  20000 = D_TA_DEFAULT * 1000 /\ params_ok (c_T cfg_default) (c_N cfg_default).
+Proof. repeat split; vm_compute; congruence. Qed.
+
+(** regression of the endless-redirect defect: the server that redirects for ever is followed five times, the sixth answer ends the
+    item - still gathering after 5 periods, completed (once, 6 requests, no candidate) after 6; and T(1) = 22.813 s is exceeded by 24 s
+    of firings with the run completed *)
+Example C20_endless_redirect_server_is_given_up :
+  (let r := run cfg_default (init [fresh_item Srflx 1 1]) (EStart (at_ms 0) [] :: redirect_es 5) in ds_gathering (fst r) = true /\ n_gd (snd r) = 0) /\
+  (let r := run cfg_default (init [fresh_item Srflx 1 1]) (EStart (at_ms 0) [] :: redirect_es 6) in completed (fst r) /\ n_gd (snd r) = 1 /\ n_send 0 (snd r) = 6 /\ n_cand 0 (snd r) = 0) /\
+  (let r := run cfg_default (init [fresh_item Srflx 1 1]) (EStart (at_ms 0) [] :: redirect_es 1200) in
+   driven 20000 (us (at_ms 0)) (redirect_es 1200) /\ bound cfg_default 20000 1 = 22813000 /\ last_tick (us (at_ms 0)) (redirect_es 1200) - us (at_ms 0) = 24000000 /\
+   completed (fst r) /\ n_gd (snd r) = 1 /\ n_send 0 (snd r) = 6).
+Proof. exact example_endless_redirect_server. Qed.
+
+(** three items, a hostile server: endless 438 (answered twice each time) for both TURN allocations, a success answer for a
+    transaction never used and a garbage-class answer for the STUN discovery: 132 s of firings every 20 ms exceed T(3) = 130.329 s;
+    completion once, no candidate, 1 + 5 requests per allocation *)
+Example C20_nonvacuous_hostile_server :
+  let r := run cfg_default (init l3) (EStart (at_ms 0) [] :: es_hostile) in
+  Forall fresh l3 /\ driven 20000 (us (at_ms 0)) es_hostile /\
+  bound cfg_default 20000 3 = 130329000 /\ last_tick (us (at_ms 0)) es_hostile - us (at_ms 0) = 132000000 /\
+  completed (fst r) /\ n_gd (snd r) = 1 /\ n_cand 0 (snd r) = 0 /\ n_cand 1 (snd r) = 0 /\ n_cand 2 (snd r) = 0 /\
+  n_send 0 (snd r) = 3 /\ n_send 1 (snd r) = 6 /\ n_send 2 (snd r) = 6.
+Proof. exact example_hostile. Qed.
+
+(** a redirect chain of three servers then success, and a TURN server that asks for credentials then allocates: one candidate each *)
+Example C20_nonvacuous_redirect_chain :
+  let r := run cfg_default (init l2) (EStart (at_ms 0) [] :: es_chain) in
+  Forall fresh l2 /\ driven 20000 (us (at_ms 0)) es_chain /\
+  bound cfg_default 20000 2 = 66256000 /\ last_tick (us (at_ms 0)) es_chain - us (at_ms 0) = 68000000 /\
+  completed (fst r) /\ n_gd (snd r) = 1 /\ n_cand 0 (snd r) = 1 /\ n_cand 1 (snd r) = 1 /\ n_send 0 (snd r) = 4 /\ n_send 1 (snd r) = 2.
+Proof. exact example_chain. Qed.
+
+(** silent servers: still gathering after the firing at 2.00 s, completed (once, 3 transmissions per item) by the one at 2.02 s *)
+Example C20_nonvacuous_silence :
+  (let r := run cfg_default (init l2) (EStart (at_ms 0) [] :: es_silent 100) in ds_gathering (fst r) = true /\ n_gd (snd r) = 0) /\
+  (let r := run cfg_default (init l2) (EStart (at_ms 0) [] :: es_silent 101) in completed (fst r) /\ n_gd (snd r) = 1 /\ n_send 0 (snd r) = 3 /\ n_send 1 (snd r) = 3) /\
+  (let r := run cfg_default (init l2) (EStart (at_ms 0) [] :: es_silent 1300) in completed (fst r) /\ n_gd (snd r) = 1).
+Proof. exact example_silent. Qed.
